@@ -19,13 +19,26 @@
 // command that wrongly does not lock is caught — never whether correct code passes.
 //
 //   life <watchdog_ms> tok…          see lean/BFL/Driver/Life.lean for tokens and output words
+//   lifesis <watchdog_ms> tok…       the same schedule on a real bfl::SIS (DrawParticles + BootstrapCorrection on
+//        harness-defined LTI models): SIS::filtering_step() predicts unless step_number() == 0; a prediction
+//        is logged as event P between S<k> and E<k>
 //   free <watchdog_ms> <true_calls> tok…   free-running run: no parking; run_condition() is true
 //        for its first <true_calls> calls; tokens r s b t (commands), y (yield), z<us> (sleep), j
 //        output: totally ordered log of events and command begin/end marks, then J:<run>:<step>
 #include <BayesFilters/FilteringAlgorithm.h>
+#include <BayesFilters/SIS.h>
+#include <BayesFilters/DrawParticles.h>
+#include <BayesFilters/BootstrapCorrection.h>
+#include <BayesFilters/LTIStateModel.h>
+#include <BayesFilters/LTIMeasurementModel.h>
+#include <BayesFilters/LikelihoodModel.h>
+#include <BayesFilters/ParticleSetInitialization.h>
+#include <BayesFilters/Resampling.h>
 
 #include <atomic>
 #include <cerrno>
+#include <cmath>
+#include <memory>
 #include <cstdio>
 #include <functional>
 #include <cstdlib>
@@ -161,46 +174,112 @@ bool foreign(const char* what) {
     return false;
 }
 
+// the probe's callbacks, shared by the bare probe and the SIS probe (`real` = what the base class does)
+bool hook_init(const std::function<void()>& real) {
+    if (foreign("I")) return true;
+    logev("I");
+    real();
+    arrive('i');
+    // the result is an input of the schedule like run_condition()'s (digit of the releasing `a`)
+    return g_free.load() ? true : g_rc.load();
+}
+void hook_step(const std::function<unsigned()>& number, const std::function<void()>& real) {
+    if (foreign("S")) return;
+    logev("S" + std::to_string(number()));
+    arrive('s');
+    real();
+    logev("E" + std::to_string(number()));
+}
+bool hook_cond() {
+    if (foreign("C")) return false;
+    arrive('c');
+    if (g_free.load()) return g_true_calls.fetch_sub(1) > 0;
+    return g_rc.load();
+}
+void hook_point(int p) {
+    if (p == 6) {                       // inside reboot(), on the controller's thread, mutex held
+        if (g_split.exchange(false)) { g_at6.store(true); sem_post(&g_ctl_arrive); while (sem_wait(&g_ctl_go) != 0) {} }
+        return;
+    }
+    if (foreign("P")) return;
+    tl_filter = true;
+    if (p == 5) {                       // after the final store: the thread ends, nothing to hold
+        g_ended.store(true);
+        if (!g_free.load()) post_arrival('f');
+        return;
+    }
+    if (p == 4 && g_free_op.load()) logev("P");   // free run: the final store has not happened yet
+    arrive('0' + p);
+}
+
 class Probe : public bfl::FilteringAlgorithm {
 public:
     bool skip(const std::string&, const bool) override { return false; }
 
 protected:
-    bool initialization_step() override {
-        if (foreign("I")) return true;
-        logev("I");
-        arrive('i');
-        // the result is an input of the schedule like run_condition()'s (digit of the releasing `a`)
-        return g_free.load() ? true : g_rc.load();
-    }
-    void filtering_step() override {
-        if (foreign("S")) return;
-        logev("S" + std::to_string(step_number()));
-        arrive('s');
-        logev("E" + std::to_string(step_number()));
-    }
-    bool run_condition() override {
-        if (foreign("C")) return false;
-        arrive('c');
-        if (g_free.load()) return g_true_calls.fetch_sub(1) > 0;
-        return g_rc.load();
-    }
-    void verif_schedule_point(int p) override {
-        if (p == 6) {                       // inside reboot(), on the controller's thread, mutex held
-            if (g_split.exchange(false)) { g_at6.store(true); sem_post(&g_ctl_arrive); while (sem_wait(&g_ctl_go) != 0) {} }
-            return;
-        }
-        if (foreign("P")) return;
-        tl_filter = true;
-        if (p == 5) {                       // after the final store: the thread ends, nothing to hold
-            g_ended.store(true);
-            if (!g_free.load()) post_arrival('f');
-            return;
-        }
-        if (p == 4 && g_free_op.load()) logev("P");   // free run: the final store has not happened yet
-        arrive('0' + p);
+    bool initialization_step() override { return hook_init([] {}); }
+    void filtering_step() override { hook_step([this] { return step_number(); }, [] {}); }
+    bool run_condition() override { return hook_cond(); }
+    void verif_schedule_point(int p) override { hook_point(p); }
+};
+
+// ---- a real SIS under the same scheduler: its filtering_step() consults step_number()
+using namespace Eigen;
+static MatrixXd sF() { MatrixXd F(2, 2); F << 0.9, 0.1, 0.0, 0.8; return F; }
+static MatrixXd sQ() { MatrixXd Q(2, 2); Q << 0.05, 0.0, 0.0, 0.04; return Q; }
+static MatrixXd sH() { MatrixXd H(1, 2); H << 1.0, 0.5; return H; }
+static MatrixXd sR() { MatrixXd R(1, 1); R << 0.2; return R; }
+
+struct SState : public bfl::LTIStateModel {
+    SState() : LTIStateModel(sF(), sQ()) {}
+    bfl::VectorDescription getStateDescription() override { return bfl::VectorDescription(2); }
+    MatrixXd getNoiseSample(const std::size_t num) override { return MatrixXd::Constant(2, num, 0.01); }
+    VectorXd getTransitionProbability(const Ref<const MatrixXd>&, const Ref<const MatrixXd>& cur) override { return VectorXd::Ones(cur.cols()); }
+};
+struct SMeas : public bfl::LTIMeasurementModel {
+    SMeas() : LTIMeasurementModel(sH(), sR()) {}
+    bool freeze(const bfl::Data&) override { return true; }
+    std::pair<bool, bfl::Data> measure(const bfl::Data&) const override { MatrixXd y(1, 1); y << 1.0; return std::make_pair(true, bfl::Data(y)); }
+    bfl::VectorDescription getInputDescription() const override { return bfl::VectorDescription(2, 0, 1); }
+    bfl::VectorDescription getMeasurementDescription() const override { return bfl::VectorDescription(1); }
+};
+struct SLik : public bfl::LikelihoodModel {
+    std::pair<bool, VectorXd> likelihood(const bfl::MeasurementModel&, const Ref<const MatrixXd>& states) override {
+        return std::make_pair(true, VectorXd::Constant(states.cols(), 0.5));
     }
 };
+struct SInit : public bfl::ParticleSetInitialization {
+    bool initialize(bfl::ParticleSet& p) override {
+        for (long i = 0; i < p.state().cols(); ++i) p.state(i) << 0.1 * (i % 5), -0.1 * (i % 3);
+        p.weight().setConstant(-std::log(static_cast<double>(p.state().cols())));
+        return true;
+    }
+};
+// the prediction that is actually carried out (PFPrediction::predict calls predictStep unless skipping) is an event
+struct SDraw : public bfl::DrawParticles {
+    using DrawParticles::DrawParticles;
+protected:
+    void predictStep(const bfl::ParticleSet& prev, bfl::ParticleSet& pred) override { logev("P"); DrawParticles::predictStep(prev, pred); }
+};
+
+class ProbeSIS : public bfl::SIS {
+public:
+    using SIS::SIS;
+protected:
+    bool initialization_step() override { return hook_init([this] { (void) bfl::SIS::initialization_step(); }); }
+    void filtering_step() override { hook_step([this] { return step_number(); }, [this] { bfl::SIS::filtering_step(); }); }
+    bool run_condition() override { (void) bfl::SIS::run_condition(); return hook_cond(); }
+    void verif_schedule_point(int p) override { hook_point(p); }
+};
+
+bfl::FilteringAlgorithm* make_filter(bool sis) {
+    if (!sis) return new Probe();
+    return new ProbeSIS(8, 2,
+        std::unique_ptr<bfl::ParticleSetInitialization>(new SInit()),
+        std::unique_ptr<bfl::PFPrediction>(new SDraw(std::unique_ptr<bfl::StateModel>(new SState()))),
+        std::unique_ptr<bfl::PFCorrection>(new bfl::BootstrapCorrection(std::unique_ptr<bfl::MeasurementModel>(new SMeas()), std::unique_ptr<bfl::LikelihoodModel>(new SLik()))),
+        std::unique_ptr<bfl::Resampling>(new bfl::Resampling(1)));
+}
 
 int wait_arrival() {
     while (sem_wait(&g_arrive) != 0) {}
@@ -222,7 +301,7 @@ void emit(int fd, const std::string& w) {
 
 void sleep_us(long us) { struct timespec ts; ts.tv_sec = us / 1000000; ts.tv_nsec = (us % 1000000) * 1000; nanosleep(&ts, nullptr); }
 
-void do_cmd(Probe& f, char c) {
+void do_cmd(bfl::FilteringAlgorithm& f, char c) {
     switch (c) {
         case 'r': f.run(); break;
         case 's': f.reset(); break;
@@ -243,7 +322,7 @@ std::string take_events(size_t& seen) {
 const long GRACE_US = 15000;
 
 // ---------------------------------------------------------------------------- scheduled run (child)
-void run_life(int fd, const std::vector<std::string>& toks) {
+void run_life(int fd, const std::vector<std::string>& toks, bool sis) {
     sem_init(&g_arrive, 0, 0);
     sem_init(&g_go, 0, 0);
     sem_init(&g_w_sem, 0, 0);
@@ -253,7 +332,7 @@ void run_life(int fd, const std::vector<std::string>& toks) {
     bool released_into_mutex = false;       // the thread was let go towards the mutex rb holds
     int rb_w0 = 0;
     tl_ctl = true;
-    Probe* f = new Probe();                 // never destroyed: the child leaves with _exit
+    bfl::FilteringAlgorithm* f = make_filter(sis);   // never destroyed: the child leaves with _exit
     size_t seen = 0;
     int cur;                                // parking place of the filtering thread
     std::thread* helper = nullptr;          // asynchronous command not yet completed
@@ -392,7 +471,7 @@ void run_free(int fd, const std::vector<std::string>& toks0) {
     std::vector<std::string> toks(toks0);
     if (toks.empty()) { emit(fd, "bad-args"); return; }
     g_true_calls.store(std::atol(toks[0].c_str()));
-    Probe* f = new Probe();
+    bfl::FilteringAlgorithm* f = make_filter(false);
     if (!f->boot()) { emit(fd, "boot-failed"); return; }
     for (size_t i = 1; i < toks.size(); ++i) {
         const std::string& tok = toks[i];
@@ -427,7 +506,7 @@ std::string run_case(const std::string& op, long watchdog_ms, const std::vector<
         // the library reports some conditions on std::cout / std::cerr; keep them out of the protocol
         int dn = open("/dev/null", O_WRONLY);
         if (dn >= 0) { dup2(dn, 1); close(dn); }
-        if (op == "life") run_life(p[1], toks); else run_free(p[1], toks);
+        if (op == "life" || op == "lifesis") run_life(p[1], toks, op == "lifesis"); else run_free(p[1], toks);
         close(p[1]);
         _exit(0);
     }
@@ -478,7 +557,7 @@ int main() {
         long watchdog = 0;
         if (is >> w) watchdog = std::atol(w.c_str());
         while (is >> w) toks.push_back(w);
-        if ((op != "life" && op != "free") || watchdog <= 0) { std::cout << "bad-op\n"; continue; }
+        if ((op != "life" && op != "lifesis" && op != "free") || watchdog <= 0) { std::cout << "bad-op\n"; continue; }
         std::string res = run_case(op, watchdog, toks);
         // an expected hang (short watchdog, chosen by the check) does not count
         if (res.size() >= 4 && res.compare(res.size() - 4, 4, "hang") == 0 && watchdog > 1000) ++hangs;
